@@ -762,6 +762,31 @@ theorem c06_failed_request_leaves_no_marker (o : Ovl) (id : Nat) (tm : Option Tr
   rw [hreq] at this
   exact absurd this (by simp)
 
+/-- every node's aggregate is its key plus the keys of everything below it -/
+def AggOK : TN → Prop
+  | .nil => True
+  | .node _ _ key _ agg c s => agg = key + keySum c ∧ AggOK c ∧ AggOK s
+
+private theorem keySum_aggregate (f : TN) : keySum (aggregate f).1 = keySum f := by
+  induction f with
+  | nil => rfl
+  | node nid sid key idx agg c s ihc ihs => simp [aggregate, keySum, ihc, ihs]
+
+/-- **`NewTree` always computes the aggregates from the structure it is given**, whatever the
+aggregate fields of the (possibly re-used) nodes held before: afterwards every node carries the sum
+over its subtree.  So a tree made over nodes re-used from an earlier tree whose children changed
+since has the same aggregates as the tree a receiver rebuilds from its description. -/
+theorem c06_newtree_aggregates_are_subtree_sums (id : Nat) (ro : Roster) (root : TN) :
+    AggOK (newTree id ro root).root ∧
+    (newTree id ro root).root = (newTree id ro (clearAgg root)).root := by
+  constructor
+  · simp only [newTree]
+    induction root with
+    | nil => trivial
+    | node nid sid key idx agg c s ihc ihs =>
+      exact ⟨by simp [aggregate_sum, keySum_aggregate], ihc, ihs⟩
+  · simp [newTree, aggregate_clearAgg]
+
 /-! ### the code regions the model stands for
 Regenerated from /repo's source on every run (`harness/cmd/astfacts` → `OnetVerif/Shapes.lean`): the
 calls that matter for synchronisation and data flow, the lock regions and (for decision logic) the
